@@ -922,6 +922,22 @@ def stale_slot_read(model: Model, func: str, obj_name: str) -> Optional[str]:
     for n in ast.walk(fn):
         if isinstance(n, ast.Assign) and isinstance(n.value, ast.Name) and n.value.id == obj_name:
             aliases |= {t.id for t in n.targets if isinstance(t, ast.Name)}
+        elif isinstance(n, ast.Assign) and isinstance(n.value, ast.Call):
+            # x = helper(.., OBJ, ..) where the helper can hand that very argument back (`return defaults`)
+            for i_, a_ in enumerate(n.value.args):
+                if isinstance(a_, ast.Name) and a_.id == obj_name:
+                    for cs in model.calls.get(func, []):
+                        if cs.node is not n.value:
+                            continue
+                        for callee in cs.callees:
+                            cfi = model.funcs.get(callee)
+                            if cfi is None:
+                                continue
+                            pi_ = i_ + (1 if cs.kind in ("method", "ctor") else 0)
+                            if pi_ < len(cfi.params) and any(isinstance(r, ast.Return) and isinstance(r.value, ast.Name) and r.value.id == cfi.params[pi_]
+                                                             for r in ast.walk(cfi.node)):
+                                aliases |= {t.id for t in n.targets if isinstance(t, ast.Name)}
+    aliases -= params - {a for a in aliases if any(isinstance(n, ast.Assign) and any(isinstance(t, ast.Name) and t.id == a for t in n.targets) for n in fn.body)}
     loops = [n for n in ast.walk(fn) if isinstance(n, (ast.For, ast.While))]
 
     def in_loop(x: ast.AST) -> bool:
